@@ -35,6 +35,8 @@ VARIABLE st            \* <<"root">> | <<"cfg", c>>
 
 Modes     == {"none", "slim", "dev", "strict", "image"}   \* image = --sandbox
 ToolSteps == {"none", "checkout", "build", "package"}
+\* tools of a SECOND provider package: t3 has the same relative path/libs entries as t1, t4 distinct ones
+XTools    == {"none", "same@checkout", "same@build", "distinct@build", "both@package"}
 Steps     == {"checkout", "build", "package"}
 FpSteps   == {"fp_build", "fp_package"}
 AllSteps  == Steps \cup FpSteps
@@ -55,7 +57,8 @@ Configs == { c \in [ E        : BOOLEAN,       \* bob dev -E
                      deps     : DepSeqs,       \* result dependencies in declared order
                      codep    : 0..MaxDeps,    \* index of the dependency with checkoutDep: True (0 = none)
                      pkgdep   : BOOLEAN,       \* packageDepends
-                     toolstep : ToolSteps ]    \* step that lists tool t1 in {checkout,build,package}Tools
+                     toolstep : ToolSteps,     \* step that lists tool t1 in {checkout,build,package}Tools
+                     xtool    : XTools ]       \* which tools of the second provider are listed, and where
              : c.codep <= Len(c.deps) }
 
 ----------------------------------------------------------------------------
@@ -143,11 +146,31 @@ CodeHostVisible(h, c) ==
 ----------------------------------------------------------------------------
 (* recipe variables *)
 
-\* tool t1 is available from the step that names it onwards (configuration.rst 743-749);
-\* tool t2 is named in buildToolsWeak of every package
+\* A tool is available from the step that names it onwards (configuration.rst 743-749).
+\* Package "tl" provides t1 (path bin, libs lib/zz lib/aa, an environment) and t2 (path sbin, no libs);
+\* package "tm" provides t3 (the SAME relative entries as t1: bin, lib/zz lib/aa) and t4 (tools, l4/one l4/two).
+\* t1: cfg.toolstep; t2: buildToolsWeak of every package; t3, t4: cfg.xtool.
+ToolNames == <<"t1", "t2", "t3", "t4">>
+ToolPkg(t)  == IF t \in {"t1", "t2"} THEN "tl" ELSE "tm"
+ToolPath(t) == CASE t = "t1" -> "bin" [] t = "t2" -> "sbin" [] t = "t3" -> "bin" [] t = "t4" -> "tools"
+ToolLibs(t) == CASE t = "t1" -> <<"lib/zz", "lib/aa">> [] t = "t2" -> <<>>
+                 [] t = "t3" -> <<"lib/zz", "lib/aa">> [] t = "t4" -> <<"l4/one", "l4/two">>
 T1From(c) == CASE c.toolstep = "checkout" -> 1 [] c.toolstep = "build" -> 2
                [] c.toolstep = "package" -> 3 [] OTHER -> 4
+T3From(c) == CASE c.xtool = "same@checkout" -> 1 [] c.xtool = "same@build" -> 2
+               [] c.xtool = "both@package" -> 3 [] OTHER -> 4
+T4From(c) == CASE c.xtool = "distinct@build" -> 2 [] c.xtool = "both@package" -> 3 [] OTHER -> 4
 Tools(s, c) == (IF T1From(c) <= StepNo(s) THEN {"t1"} ELSE {}) \cup (IF StepNo(s) >= 2 THEN {"t2"} ELSE {})
+               \cup (IF T3From(c) <= StepNo(s) THEN {"t3"} ELSE {}) \cup (IF T4From(c) <= StepNo(s) THEN {"t4"} ELSE {})
+
+(* PATH gets <workspace of the providing package>/<path> of every consumed tool, LD_LIBRARY_PATH gets
+   <workspace>/<lib> for every entry of libs (configuration.rst 616-622, 713-724, 1964-1968, 1989-1992).  The order of
+   the libs of ONE tool is the declared one; between tools the manual leaves the order open, the code sorts by tool
+   name (intermediate.py:232-242): LibPath is that M-level order, the P-level requirement is LibsOfTool.          *)
+LibsOfTool(t) == [ i \in 1..Len(ToolLibs(t)) |-> <<t, ToolPkg(t), ToolLibs(t)[i]>> ]
+LibPath(s, c) == LET f(t) == IF t \in Tools(s, c) THEN LibsOfTool(t) ELSE <<>>
+                 IN f("t1") \o f("t2") \o f("t3") \o f("t4")
+ToolPkgs(s, c) == { ToolPkg(t) : t \in Tools(s, c) }
 
 \* is a definition from source x part of the package environment at all?
 Defined(x, c) ==
@@ -209,11 +232,6 @@ Args(s, c) ==
 
 Range(q) == { q[i] : i \in 1..Len(q) }
 
-(* tools: configuration.rst 616-622, 713-724, 1964-1968, 1989-1992.  t1 has path "bin" and libs
-   <<"lib/zz", "lib/aa">> (declared order is kept per tool; order between tools is unspecified),
-   t2 has path "sbin" and no libs.  Both are provided by package "tl".                          *)
-ToolLibs(t) == IF t = "t1" THEN <<"zz", "aa">> ELSE <<>>
-
 ----------------------------------------------------------------------------
 (* mounts: bob-build-dev.rst 25-27, 134-139, 222-236; languages.py:721-736 *)
 
@@ -224,7 +242,7 @@ Earlier(s) == CASE s = "build" -> { <<"self", "src">> }
                 [] OTHER -> {}
 \* what must be reachable (it was declared) ...
 RequiredWs(s, c) == Range(Args(s, c))
-                    \cup (IF Tools(s, c) # {} THEN { <<"tl", "dist">> } ELSE {})
+                    \cup { <<p, "dist">> : p \in ToolPkgs(s, c) }
                     \cup (IF ImageUsed(c) THEN { <<"sbx", "dist">> } ELSE {})
 \* ... and what may be reachable besides the own workspace ("earlier steps of its own package")
 ReadableWs(s, c) == RequiredWs(s, c) \cup Earlier(s)
@@ -243,31 +261,46 @@ HostCode(h) == CASE h = "no" -> "n" [] h = "hidden" -> "h" [] h = "wl" -> "w"
 KindId(k)  == SrcCode(k.lo) \o SrcCode(k.hi) \o DeclCode(k.decl) \o (IF k.fp THEN "f" ELSE "-") \o HostCode(k.host)
 HostId(h)  == <<h.dflt, h.wl, h.rm, h.e>>
 
+(* The visible variable classes depend on the configuration only through VisKey (invariant VisibleByProfile);
+   they are printed once per key in the catalogue and every configuration refers to its key.                  *)
+VisKeys   == BOOLEAN \X BOOLEAN \X BOOLEAN
+VisKey(c) == <<c.E, c.toolstep # "none", ImageUsed(c)>>
+Rep(key)  == [ E |-> key[1], sb |-> IF key[3] THEN "dev" ELSE "none", img |-> key[3], deps |-> <<>>, codep |-> 0,
+               pkgdep |-> FALSE, toolstep |-> IF key[2] THEN "build" ELSE "none", xtool |-> "none" ]
+VisJson(s, c) ==
+  [ recipe |-> { KindId(k) \o ":" \o SrcCode(Visible(k, s, c)[2]) : k \in { x \in VarKinds : Visible(x, s, c)[1] = "recipe" } },
+    host   |-> { KindId(k) : k \in { x \in VarKinds : Visible(x, s, c)[1] = "host" } } ]
+HostVisJson(c) == { HostId(h) : h \in { x \in HostKinds : HostVisible(x, c) } }
+ProfileJson(key) ==
+  LET c == Rep(key) IN
+  [ key |-> key, hostvis |-> HostVisJson(c),
+    checkout |-> VisJson("checkout", c), build |-> VisJson("build", c), package |-> VisJson("package", c),
+    fp_build |-> VisJson("fp_build", c), fp_package |-> VisJson("fp_package", c) ]
+
 StepJson(s, c) ==
-  [ recipe   |-> { KindId(k) \o ":" \o SrcCode(Visible(k, s, c)[2]) : k \in { x \in VarKinds : Visible(x, s, c)[1] = "recipe" } },
-    host     |-> { KindId(k) : k \in { x \in VarKinds : Visible(x, s, c)[1] = "host" } },
-    args     |-> Args(s, c),
+  [ args     |-> Args(s, c),
     tools    |-> Tools(s, c),
-    required |-> IF s \in Steps THEN RequiredWs(s, c) ELSE {},
-    readable |-> IF s \in Steps THEN ReadableWs(s, c) ELSE {},
-    writable |-> IF s \in Steps THEN WritableWs(s, c) ELSE {} ]
+    libpath  |-> LibPath(s, c),
+    required |-> RequiredWs(s, c),
+    readable |-> ReadableWs(s, c),
+    writable |-> WritableWs(s, c) ]
 
 CfgJson(c) ==
   [ cfg      |-> c,
     isolated |-> Isolated(c), image |-> ImageUsed(c), stable |-> StablePath(c),
-    hostvis  |-> { HostId(h) : h \in { x \in HostKinds : HostVisible(x, c) } },
-    checkout   |-> StepJson("checkout", c),
-    build      |-> StepJson("build", c),
-    package    |-> StepJson("package", c),
-    fp_build   |-> StepJson("fp_build", c),
-    fp_package |-> StepJson("fp_package", c) ]
+    viskey   |-> VisKey(c),
+    checkout |-> StepJson("checkout", c),
+    build    |-> StepJson("build", c),
+    package  |-> StepJson("package", c) ]
 
 \* the static catalogue (printed once): all classes, so that the driver creates one real
 \* variable per class and does not need its own copy of the universe
 ASSUME Emit => PrintT(<<"@@", ToJson([ catalogue |-> [ kinds |-> { <<KindId(k), k>> : k \in VarKinds },
                                                        srccodes |-> { <<SrcCode(x), x>> : x \in Sources },
                                                        hostkinds |-> { HostId(h) : h \in HostKinds },
-                                                       libs |-> [ t1 |-> ToolLibs("t1"), t2 |-> ToolLibs("t2") ] ] ])>>)
+                                                       profiles |-> { ProfileJson(k) : k \in VisKeys },
+                                                       tools |-> { <<ToolNames[i], ToolPkg(ToolNames[i]), ToolPath(ToolNames[i]),
+                                                                     ToolLibs(ToolNames[i])>> : i \in 1..Len(ToolNames) } ] ])>>)
 
 ----------------------------------------------------------------------------
 (* state machine: one configuration per state; one action per sandbox mode (coverage) *)
@@ -292,34 +325,38 @@ EmitCase == (Emit /\ IsCfg) => PrintT(<<"@@", ToJson(CfgJson(C))>>)
 
 TypeOK == st = <<"root">> \/ (st[1] = "cfg" /\ st[2] \in Configs)
 
+\* The invariants that quantify over all variable classes are evaluated on the representative configuration
+\* of every VisKey only; VisibleByProfile (checked in EVERY state) carries them over to all configurations.
+OnRep == IsCfg /\ C = Rep(VisKey(C))
+
 \* carry-forward: visible in checkout => in build => in package
-CarryForward == IsCfg => \A k \in VarKinds :
+CarryForward == OnRep => \A k \in VarKinds :
   /\ RecipeVisible(k, "checkout", C) => RecipeVisible(k, "build", C)
   /\ RecipeVisible(k, "build", C) => RecipeVisible(k, "package", C)
   /\ RecipeVisible(k, "fp_build", C) => RecipeVisible(k, "fp_package", C)
 
 \* weak declarations are exported exactly like strong ones
-WeakLikeStrong == IsCfg => \A k \in BaseKinds : \A s \in AllSteps :
+WeakLikeStrong == OnRep => \A k \in BaseKinds : \A s \in AllSteps :
   IsWeak(k.decl) => (RecipeVisible(k, s, C) <=> RecipeVisible([k EXCEPT !.decl = Strong(k.decl)], s, C))
 
 \* nothing undeclared is set by the recipes; nothing undefined is set
-OnlyDeclared == IsCfg => \A k \in VarKinds : \A s \in AllSteps :
+OnlyDeclared == OnRep => \A k \in VarKinds : \A s \in AllSteps :
   RecipeVisible(k, s, C) => (k.decl # "none" /\ DefinedKind(k, C))
 
 \* fingerprint scripts see a subset of their step, restricted to fingerprintVars
-FingerprintSubset == IsCfg => \A k \in VarKinds : \A s \in FpSteps :
+FingerprintSubset == OnRep => \A k \in VarKinds : \A s \in FpSteps :
   RecipeVisible(k, s, C) => (k.fp /\ RecipeVisible(k, Under(s), C))
 
 \* no host variable is visible unless whitelisted or -E; -E shows all of them
-NoHostLeak == IsCfg => \A s \in AllSteps :
+NoHostLeak == OnRep => \A s \in AllSteps :
   /\ \A h \in HostKinds : (HostVisible(h, C) /\ ~C.E) => Whitelisted(h)
   /\ \A k \in VarKinds : (Visible(k, s, C) = <<"host">> /\ ~C.E) => k.host = "wl"
-PreserveShowsAll == (IsCfg /\ C.E) =>
+PreserveShowsAll == (OnRep /\ C.E) =>
   /\ \A h \in HostKinds : HostVisible(h, C)
   /\ \A k \in VarKinds : \A s \in AllSteps : k.host # "no" => Visible(k, s, C)[1] \in {"host", "recipe"}
 
 \* a declared variable always carries the recipe value, whatever the host has
-DeclaredWins == IsCfg => \A k \in VarKinds : \A s \in AllSteps :
+DeclaredWins == OnRep => \A k \in VarKinds : \A s \in AllSteps :
   RecipeVisible(k, s, C) => Visible(k, s, C)[1] = "recipe"
 
 \* monotone in the whitelist settings; -e beats whitelistRemove; remove beats whitelist
@@ -345,13 +382,28 @@ ArgsShape == IsCfg =>
 ToolCarryForward == IsCfg => /\ Tools("checkout", C) \subseteq Tools("build", C)
                              /\ Tools("build", C) \subseteq Tools("package", C)
 
+\* every lib dir of every consumed tool is on LD_LIBRARY_PATH, per tool in declared order, nothing else;
+\* identical relative entries of tools of different packages stay distinct directories
+LibPathComplete == IsCfg => \A s \in Steps :
+  /\ \A t \in Tools(s, C) : \A i \in 1..Len(ToolLibs(t)) :
+        \E j \in 1..Len(LibPath(s, C)) : LibPath(s, C)[j] = <<t, ToolPkg(t), ToolLibs(t)[i]>>
+  /\ \A t \in Tools(s, C) : SelectSeq(LibPath(s, C), LAMBDA e : e[1] = t) = LibsOfTool(t)
+  /\ \A j \in 1..Len(LibPath(s, C)) : LibPath(s, C)[j][1] \in Tools(s, C)
+  /\ \A i, j \in 1..Len(LibPath(s, C)) : i # j => LibPath(s, C)[i] # LibPath(s, C)[j]
+
+\* the visible classes are a function of VisKey alone (justifies printing them once per key)
+VisibleByProfile == IsCfg =>
+  /\ Rep(VisKey(C)) \in Configs
+  /\ HostVisJson(C) = HostVisJson(Rep(VisKey(C)))
+  /\ \A s \in AllSteps : \A k \in VarKinds : Visible(k, s, C) = Visible(k, s, Rep(VisKey(C)))
+
 \* sandbox: only declared things are reachable, none of them writable, own workspace writable
 MountsSound == IsCfg => \A s \in Steps :
   /\ OwnWs(s) \notin ReadableWs(s, C)
   /\ WritableWs(s, C) \cap ReadableWs(s, C) = {}
   /\ RequiredWs(s, C) \subseteq ReadableWs(s, C)
   /\ \A w \in ReadableWs(s, C) : \/ w \in Range(Args(s, C)) \/ w \in Earlier(s)
-                                 \/ (w = <<"tl", "dist">> /\ Tools(s, C) # {})
+                                 \/ (w[2] = "dist" /\ w[1] \in ToolPkgs(s, C))
                                  \/ (w = <<"sbx", "dist">> /\ ImageUsed(C))
 
 \* documentation table = definitions; documentation = code structure
@@ -360,7 +412,7 @@ ModeTable == IsCfg => LET r == DocTable(C.sb, C.img) IN
 DocMatchesCode == IsCfg =>
   /\ Isolated(C) = CodeIsolated(C) /\ ImageUsed(C) = CodeFat(C) /\ StablePath(C) = CodeStable(C)
   /\ \A h \in HostKinds : HostVisible(h, C) = CodeHostVisible(h, C)
-  /\ \A k \in VarKinds : \A s \in AllSteps : RecipeVisible(k, s, C) = CodeExported(k, s, C)
+  /\ OnRep => \A k \in VarKinds : \A s \in AllSteps : RecipeVisible(k, s, C) = CodeExported(k, s, C)
 
 ----------------------------------------------------------------------------
 (* reachability (vacuity control): each must be VIOLATED *)
@@ -371,5 +423,7 @@ ReachSandboxEnvVisible == ~(IsCfg /\ \E k \in VarKinds : k.lo = "sbox" /\ Visibl
 ReachHostShadowed      == ~(IsCfg /\ C.E /\ \E k \in VarKinds : k.host = "hidden" /\ Visible(k, "package", C) = <<"recipe", k.lo>>
                                           /\ Visible(k, "checkout", C) = <<"host">>)
 ReachWeakFingerprint   == ~(IsCfg /\ \E k \in VarKinds : IsWeak(k.decl) /\ RecipeVisible(k, "fp_package", C) /\ ~RecipeVisible(k, "fp_build", C))
+ReachSameRelLibs       == ~(IsCfg /\ \E s \in Steps : {"t1", "t3"} \subseteq Tools(s, C) /\ ToolPkg("t1") # ToolPkg("t3")
+                                          /\ ToolLibs("t1") = ToolLibs("t3") /\ "t1" \notin Tools("checkout", C))
 ReachPrecedence        == ~(IsCfg /\ \E k \in VarKinds : k.hi = "sbox" /\ Visible(k, "build", C) = <<"recipe", "dep_use">>)
 =============================================================================
